@@ -162,6 +162,13 @@ Theorem C09_trace_accepted : forall c ls s, run c init ls = Some s ->
 Proof. exact TraceSound.trace_accepted. Qed.
 Print Assumptions C09_trace_accepted.
 
+(* the predictions of the correspondence are executions of this transition system: the canonical run of a fault script
+   (what `predicted` evaluates) is a label sequence of [step] from [init], so every theorem above applies to it *)
+Theorem C09_canonical_is_run : forall sc s ls, canonical sc = (s, ls, true) ->
+  run (sc_cfg sc) init (rev ls) = Some s /\ reach (sc_cfg sc) s.
+Proof. exact TraceSound.canonical_is_run. Qed.
+Print Assumptions C09_canonical_is_run.
+
 (* ---------- the time wheel tolerance (uses the accuracy constant regenerated from the tree) ---------- *)
 Theorem C09_wheel_not_early : forall T, 19 * T <= 20 * lo T.
 Proof. exact CallLifeProofs.wheel_not_early. Qed.
